@@ -277,6 +277,16 @@ func genesisMutations(e *fw.Env, doc []byte) []struct{ Kind, Doc string } {
 // every generated document accepted by validation initialises.
 func CheckC17(e *fw.Env, l *Lab) {
 	w := l.W
+	// node-local activity that is never committed (simulations, handlers on discarded branches):
+	// nothing of it may show in what is exported or in how the chain behaves afterwards
+	if e.Shard%2 == 1 {
+		tmp, _ := l.Base.CacheContext()
+		UpdateParams(w, tmp, 77)
+		PauseProtocol(w, tmp, "PROTOCOL_CCTP")
+		PauseAction(w, tmp, "ACTION_FEE")
+		PauseCrossChains(w, tmp, "PROTOCOL_HYPERLANE", []string{"1", "10"})
+		e.Res.Sig("uncommitted-admin-activity-before-the-history")
+	}
 	hists := e.N(16, 400)
 	var lastDoc []byte
 	for h := 0; h < hists; h++ {
